@@ -36,8 +36,9 @@ SolutionOK(sol) ==
 \* C16: the value a generated program must give to one of its top-level variables ("expect" lines precede the problem)
 ExpectsFor(name) == {x \in expects : x.name = name}
 TopItem(sol, var) == (CHOOSE p \in SeqRange(sol.tops) : p[1] = var)[2]
+HasTop(sol, var) == \E p \in SeqRange(sol.tops) : p[1] = var
 ExpectedValueOK(sol) ==
-  \A x \in ExpectsFor(sol.name) :
+  \A x \in {y \in ExpectsFor(sol.name) : HasTop(sol, y.var)} :      \* (a program read in several parts: once the variable exists)
      CASE x.kind = "arith" -> IREqv(ArithValue(sol, TopItem(sol, x.var)), IROf(x.value))
        [] x.kind = "bool" -> BoolValue(sol, TopItem(sol, x.var)) = x.bvalue
        [] OTHER -> TRUE
@@ -137,6 +138,9 @@ Next ==
           [] ev.e = "verdict" ->
                /\ Chk({"C16"}, "ValidProgramSolved",
                       (\E x \in ExpectsFor(ev.name) : x.kind \in {"arith", "bool"}) => ev.verdict = "solved")
+               \* a problem that has no solution by construction (the generator knows why) is not answered "solved"
+               /\ Chk({"C01", "C02", "C03"}, "KnownUnsolvableNotSolved",
+                      (\E x \in ExpectsFor(ev.name) : x.kind = "unsolvable") => ev.verdict # "solved")
                /\ Chk({"C17"}, "SolvableIffSomeInstanceFits",
                       \A x \in {y \in ExpectsFor(ev.name) : y.kind \in {"obj", "verdict"}} : (x.sat = 1) = (ev.verdict = "solved"))
                /\ verdicts' = verdicts + 1 /\ xs' = X0 /\ UNCHANGED <<solved, expects>>
